@@ -1,3 +1,6 @@
 import PsycheModel.VMap
 import PsycheModel.Lemmas.VMap
 import PsycheModel.Props.C20
+import PsycheModel.TextTable
+import PsycheModel.Lemmas.TextTable
+import PsycheModel.Props.C18
